@@ -46,7 +46,8 @@ ids = sorted(os.listdir(SEEDED))
 r1 = [i for i in ids if re.match(r"C\d\d-[AB]$", i)]
 r2 = [i for i in ids if re.match(r"C\d\d-2[ABC]$", i)]
 r3 = [i for i in ids if re.match(r"C\d\d-3[AB]$", i)]
-for name, grp in (("Round 1", r1), ("Round 2", r2), ("Round 3", r3)):
+r4 = [i for i in ids if re.match(r"C\d\d-4[AB]$", i)]
+for name, grp in (("Round 1", r1), ("Round 2", r2), ("Round 3", r3), ("Round 4", r4)):
     print("\n%s:\n" % name)
     table(grp)
     rr = rows(grp) if "--write-meta" not in sys.argv else []
